@@ -505,7 +505,9 @@ class Facts:
         if k == 'handler':
             if n.ast.name:
                 p = canon(ast.Name(id=n.ast.name, ctx=ast.Load()), fr)
-                return self._kill(st, {p})
+                # the bound exception instance is an object, never None
+                return self._kill(st, {p}) | frozenset(
+                    [(False, p + ' is None')])
             return st
         if k == 'with_enter':
             if n.ast.optional_vars is not None:
